@@ -23,7 +23,17 @@ import (
 // Rand is splitmix64; every random choice of a run derives from VERIF_SEED through it.
 type Rand struct{ s uint64 }
 
-func NewRand(seed uint64) *Rand { return &Rand{s: seed*0x9E3779B97F4A7C15 + 0x1234567} }
+// NewRand scrambles the seed first: with a state that is a linear function of the seed,
+// consecutive seeds would yield shifted copies of one stream.
+func NewRand(seed uint64) *Rand {
+	z := seed + 0x1234567
+	for i := 0; i < 3; i++ {
+		z = (z ^ (z >> 30)) * 0xBF58476D1CE4E5B9
+		z = (z ^ (z >> 27)) * 0x94D049BB133111EB
+		z = z ^ (z >> 31) + 0x9E3779B97F4A7C15
+	}
+	return &Rand{s: z}
+}
 func (r *Rand) U64() uint64 {
 	r.s += 0x9E3779B97F4A7C15
 	z := r.s
@@ -219,7 +229,22 @@ func hashOps(ops []string) string {
 	return hex.EncodeToString(h[:8])
 }
 
-func safeRunImpl(p Prop, c Case) (out []string) {
+// CaseTimeout bounds one case on the implementation side; a case that does not return is
+// reported as a hang (the goroutine is abandoned).
+var CaseTimeout = 10 * time.Minute
+
+func safeRunImpl(p Prop, c Case) []string {
+	done := make(chan []string, 1)
+	go func() { done <- safeRunImpl1(p, c) }()
+	select {
+	case out := <-done:
+		return out
+	case <-time.After(CaseTimeout):
+		return []string{"HARNESS-HANG implementation did not return within " + CaseTimeout.String()}
+	}
+}
+
+func safeRunImpl1(p Prop, c Case) (out []string) {
 	defer func() {
 		if r := recover(); r != nil {
 			buf := make([]byte, 4096)
